@@ -155,7 +155,40 @@ def check_reporting(df, start, max_days, overshoot, ignore, end=None):
     return bad
 
 
+def history_case(case):
+    """the same frame OBJECT used twice, its index moved in place in between (same length): the second result is that of an equal fresh frame -- the
+    functions are functions of their arguments' current value"""
+    import warnings as _w
+    from opendsm.eemeter.common.transform import get_baseline_data, get_reporting_data
+    fn = get_baseline_data if case["fn"] == "baseline" else get_reporting_data
+    key = "end" if case["fn"] == "baseline" else "start"
+    df = series(case["series"])
+    t = instants(df)[case["instant"]]
+    bad = []
+    with _w.catch_warnings():
+        _w.simplefilter("ignore")
+        def call(frame):
+            try:
+                return fn(frame, **{key: t}, max_days=case["max_days"])
+            except Exception as e:  # noqa
+                return type(e).__name__, []
+        call(df)                                                         # first use
+        df.index = df.index - pd.Timedelta(days=case["shift_days"])      # the caller re-stamps the frame in place
+        got, gw = call(df)
+        want, ww = call(df.copy(deep=True))
+    if isinstance(got, str) or isinstance(want, str):
+        if got is not want and not (isinstance(got, str) and isinstance(want, str) and got == want):
+            bad.append(f"second call on the re-stamped frame gives {got if isinstance(got, str) else 'a selection'}, an equal fresh frame gives {want if isinstance(want, str) else 'a selection'}")
+    elif not got.equals(want):
+        bad.append("second call on the re-stamped frame differs from the call on an equal fresh frame (selection)")
+    if sorted(w.qualified_name for w in gw) != sorted(w.qualified_name for w in ww):
+        bad.append(f"warnings {sorted(w.qualified_name.split('.')[-1] for w in gw)} on the re-stamped frame, {sorted(w.qualified_name.split('.')[-1] for w in ww)} on an equal fresh frame")
+    return {"ok": not bad, "problems": bad}
+
+
 def replay(case):
+    if case.get("kind") == "history":
+        return history_case(case)
     df = series(case["series"])
     t = instants(df)[case["instant"]] if case["instant"] else None
     o = instants(df)[case["other"]] if case.get("other") else None
@@ -195,6 +228,16 @@ def run(tier="quick", seed=0):
                 for fn in ("baseline", "reporting"):
                     case = {"fn": fn, "series": kind, "instant": c if fn == "baseline" else a, "other": a if fn == "baseline" else c,
                             "max_days": None, "overshoot": False, "ignore": False, "ndays": None}
+                    try:
+                        r = replay(case)
+                    except Exception as e:  # noqa
+                        r = {"ok": False, "problems": [f"harness exception {type(e).__name__}: {e}"]}
+                    b.case("C20.enumerated." + fn, case, r["ok"], nontrivial_key=tuple(case.values()), detail=r["problems"])
+    for fn in ("baseline", "reporting"):
+        for kind in ("daily", "billing"):
+            for inst in ("on_last", "on_first", "between"):
+                for shift in (30, -30):
+                    case = {"kind": "history", "fn": fn, "series": kind, "instant": inst, "max_days": 400, "shift_days": shift}
                     try:
                         r = replay(case)
                     except Exception as e:  # noqa
